@@ -620,9 +620,12 @@ def run(ctx):
             k = f"{c.prim}/{c.T}"
             worst[k] = max(worst.get(k, 0.0), approx(fields(h)["maxerr"]))
     ctx.coverage["max_abs_deviation_from_long_double_defining_sum"] = worst
-    ctx.coverage["model_prefix_note"] = ("the exact model is run on the first `emit` samples of each case (all of it for short cases; "
-                                         "10^4 / 10^5 for the long FIR runs, 90..200 for IIR and sliding DFT whose exact values grow "
-                                         "by one mantissa per step); the long-double defining sums cover every sample of every run")
+    ctx.coverage["model_prefix_note"] = (
+        "the exact model is run on the first `emit` samples of each case: all of it for the short cases and for FIR runs up to 10^4 "
+        "samples (10^5-sample prefix of the 10^6-sample runs, thorough); 40/80 (60/130 thorough) samples for the repository's "
+        "double/float IIR coefficients and about 2000/(coefficient bits) (3600/.. thorough) samples for the sliding DFT, whose exact "
+        "values grow by one coefficient mantissa per step.  The long-double defining sums cover every sample of every run "
+        "(sliding DFT: every output below 4N, then every 97th and the last 2N).")
 
 
 def replay(ctx, exe):
